@@ -3,6 +3,8 @@ from mirlib import *
 import pcw_rules
 import width_rules
 import witness
+import codec_rules
+import page_rules
 
 TECHNIQUE = "MIR provenance of the section header offsets, must-pass-through / dominance order of the section patch protocol, announce/drain pairing table on last_flush, length-accounting dataflow, reader yield-count typestate, bit-width formula agreement of writer and reader, compile-fail witnesses for section interleaving"
 EXPLANATION = (
@@ -27,6 +29,8 @@ def run(ctx):
     ctx.rule("R7", "raw iterator: yields only on the read < records edge, one read += 1 per yield; pop_point pops queue i for i in 0..prototype.len() in order")
     ctx.rule("R8", "a second point cloud / blob / image / finalize while a PointCloudWriter is alive does not compile (E0499); the twin without overlap compiles")
     ctx.rule("R9", "the writer's bit width (integer_bits) and the reader's (unpack_ints / unpack_scaled_ints) are the same i128 formula ilog2(max-min)+1")
+    ctx.rule("R10", "bit packing on both sides: stored form, add_bits (aligned path and bit loop), extraction window, append keeps tail and phase (shared with C12-R2/R4/R5)")
+    ctx.rule("R11", "the page reload behind every seek back (PagedWriter::read_current_page) loops over short reads and zero-fills (shared with C11-R6)")
     for cfg in (["lib"] if ctx.tier == "quick" else ["lib", "lib_crc32c"]):
         prog, info = load_program(cfg, "e57")
         ctx.configs[cfg] = info
@@ -38,5 +42,10 @@ def run(ctx):
         pcw_rules.raw_reader_count(ctx, prog, "R7")
         pcw_rules.pop_point_order(ctx, prog, "R7")
         width_rules.width_formula(ctx, prog, "R9")
+        codec_rules.stored_form(ctx, prog, "R10")
+        codec_rules.add_bits_shape(ctx, prog, "R10")
+        codec_rules.extract_window(ctx, prog, "R10")
+        codec_rules.append_shape(ctx, prog, "R10")
+        page_rules.read_current_page_shape(ctx, prog, "R11")
     ctx.cfg = None
     witness.run(ctx, "R8", ["pcw_second_pointcloud", "pcw_blob_while_open", "pcw_image_while_open", "pcw_finalize_while_open"])
